@@ -362,6 +362,37 @@ pub fn core_parts(rep: &mut Report, props: &[&str], checks: u32) {
         let out = explore(&scns, &cfg, judge);
         rep.absorb("L: long histories under periodic background loss/delay/stalls (every ring buffer wraps many times), incl. all-local hosts with a spectator", out, props, json!({"k": 0, "rounds": rounds, "scenarios": scns.len()}));
     }
+    // ---- part M: very long histories: frame numbers pass 2^15 and 2^16 (every 16-bit quantity a
+    // frame number could be squeezed into wraps), every ring wraps hundreds of times (quick tier:
+    // in C01's run only - C02 and C03 judge the same executions in their thorough tiers)
+    if thorough || props[0] == "C01" {
+        let rounds = 70_000;
+        let mut scns = Vec::new();
+        for (t, w, d, sparse, pred, desync, wide, spec) in [
+            ("1+1", 8usize, 0usize, false, Pred::RepeatLast, 0u32, false, false),
+            ("1+1", 2, 2, true, Pred::Default, 0, true, false),
+            ("1+1", 0, 1, false, Pred::RepeatLast, 0, false, true),
+            ("2+1", 3, 1, false, Pred::RepeatLast, 7, false, true),
+        ] {
+            let mut s = base_scn("core-70k", t, w, d, sparse, pred, Program::Changing, 1);
+            for p in s.peers.iter_mut() {
+                p.desync = desync;
+            }
+            s.wide = wide;
+            if spec {
+                s.specs.push(SpecSpec::new(20, s.peers[0].addr));
+            }
+            s.background = Background { loss_every: 7, delay_every: 11, stall_every: 13 };
+            s.name = format!("{} desync={desync} wide={wide} spectator={spec} {rounds} rounds", s.name);
+            s.horizon = rounds;
+            s.probe = 40;
+            s.checks = checks;
+            scns.push(s);
+        }
+        let cfg = ExploreCfg { k: Some(0), wall: Duration::from_secs(if thorough { 600 } else { 40 }), ..Default::default() };
+        let out = explore(&scns, &cfg, judge);
+        rep.absorb("M: four configurations run for 70 000 rounds under periodic background faults (frame numbers beyond 2^16)", out, props, json!({"k": 0, "rounds": rounds, "scenarios": scns.len()}));
+    }
     // ---- part D: relative speeds: one peer ticks every 2nd / 3rd round
     {
         let mut scns = Vec::new();
